@@ -437,7 +437,7 @@ BATCH_PLANS = [("l_b1", "batch"), ("l_b1", "batch-free")]
 def body(ctx):
     quick = ctx.tier == "quick"
     depth = 3 if quick else 4
-    bdepth = 6 if quick else 8
+    bdepth = 6 if quick else 7
     states = trans = 0
     levels = {}
     for plans, d, name in ((PLANS, depth, "main"), (SOFT_PLANS, depth + 1, "soft"), (BATCH_PLANS, bdepth, "batch")):
